@@ -283,7 +283,7 @@ PROPS["C13"] = dict(
                 "a crash is a violation. Combinations the README lists as supported but that are rejected are counted, not failed."),
     technique="differential testing against a naive reference on generated operand layouts, each case in a forked child with accepted/rejected/wrong classification (rapidcheck)",
     rule=("case = operation {gemm in-place / lazy (=, +=, array construction), gemv in-place / lazy, dot (+dot, conversion, result argument), axpy (in-place, +=, -=), scal, copy (in-place, lazy), swap, "
-          "nrm2, asum, iamax, herk (complex<double>), syrk, trsm (side x filling)} + sizes 0..5 + layouts + alpha, beta in {0, 1, -1, 2, i, 3-2i}; one harness per element type {double, "
+          "nrm2, asum, iamax, herk (complex<double>), syrk, trsm (side x filling, A and B each plain / transposed / conjugated / hermitian)} + sizes 0..5 + layouts + alpha, beta in {0, 1, -1, 2, i, 3-2i}; one harness per element type {double, "
           "complex<double>, float, complex<float>}, workers split evenly; non-trivial = accepted, a matrix operand padded or wrapped or a vector strided/conjugated, sizes >= 2 where relevant; "
           "distinct = hash of decoded case text"),
     assumptions=COMMON_ASSUME[:1] + ["OpenBLAS 0.3.21 as BLAS implementation", "forms that do not instantiate on the pinned tree are replaced by the form that does and noted: lazy asum / iamax(range) -> asum(x, res) / iamax(first, last); y += axpy(a, x) needs a const x; syrk needs an owning array as output; herk with views only for complex<double>; in-place gemm and herk do not compile for complex<float> (core.hpp compares *beta with 0.0) and are excluded there; dot(C(x), C(y)) is a compile-time rejection",
